@@ -1097,7 +1097,9 @@ def run_slc_case(case, reuse=False):
     viol = []
     ref = slc_reference(case)
     fc = feature_class(case)
-    with Rig(reuse=reuse) as r:
+    # 'mfs': RFCOMM frame size of the data link carrying the AT stream (both ends); result codes then straddle frames
+    cfg = {'mfs_c': case['mfs'], 'mfs_s': case['mfs']} if case.get('mfs') else None
+    with Rig(cfg=cfg, reuse=reuse) as r:
         w = r.w
         hf, ag = build_hfp(r, case)
         completes = []
@@ -1221,6 +1223,13 @@ def slc_cases(quick):
                     for cd in codecs:
                         for ch in chlds[:: 7]:
                             add(hf_ind=a, ag_hf_ind=b, codecs=cd, chld=ch, ag_ind='three', **feats)
+    # 3. every small frame size of the data link (the AT stream is cut at every offset of its result codes), for the
+    #    longest and the shortest negotiation
+    sizes = list(range(23, 96)) + [126, 127, 128, 129, 255, 256] if quick else list(range(23, 300))
+    for feats in ({'hf': HF_ALL, 'ag': AG_ALL}, {'hf': 0, 'ag': 0}):
+        for ai in AG_IND_SETS:
+            for m in sizes:
+                add(ag_ind=ai, mfs=m, **feats)
     # lists given although the feature is off on one side
     for hf, ag in ((HF_ALL & ~0x100, AG_ALL), (HF_ALL, AG_ALL & ~0x400), (HF_ALL & ~0x002, AG_ALL), (HF_ALL, AG_ALL & ~0x001), (HF_ALL & ~0x080, AG_ALL), (HF_ALL, AG_ALL & ~0x200)):
         for a in hf_inds:
